@@ -395,6 +395,67 @@ func c09NoHandler(dir string, res *ev.Result, tag string, cs *c09Case) {
 	res.Seen(fmt.Sprintf("no-handler|split%v", cs.Total > 4<<20))
 }
 
+// c09UpdateFromHandler: the plugin's Synchronize handler itself issues an unsolicited update before it
+// returns (state split or not): the synchronization still completes with the exact state, and the plugin is active.
+func c09UpdateFromHandler(dir string, res *ev.Result, tag string, cs *c09Case) {
+	what := map[string]any{"scenario": "Synchronize handler issues an unsolicited update", "state": cs}
+	rt, err := rig.NewRuntime(dir)
+	if err != nil {
+		res.Note("runtime: %v", err)
+		return
+	}
+	pods, ctrs := c09State(cs, tag)
+	rt.SetState(pods, ctrs)
+	done := make(chan error, 8)
+	rt.SyncDone = func(_ []*api.ContainerUpdate, err error) { done <- err }
+	var updates atomic.Int32
+	rt.UpdateFn = func(_ context.Context, u []*api.ContainerUpdate) ([]*api.ContainerUpdate, error) {
+		updates.Add(1)
+		return nil, nil
+	}
+	if err := rt.Start(); err != nil {
+		res.Note("start: %v", err)
+		return
+	}
+	defer rt.Stop()
+	for len(done) > 0 {
+		<-done
+	}
+	var gotP, gotC atomic.Int32
+	var uerr atomic.Value
+	var p *rig.Plugin
+	p = rig.NewPlugin("updsync", "10", 0, rig.Handlers{
+		Synchronize: func(_ context.Context, ps []*api.PodSandbox, cc []*api.Container) ([]*api.ContainerUpdate, error) {
+			gotP.Store(int32(len(ps)))
+			gotC.Store(int32(len(cc)))
+			if _, err := p.Stub.UpdateContainers([]*api.ContainerUpdate{{ContainerId: tag + "-from-sync"}}); err != nil {
+				uerr.Store(err)
+			}
+			return nil, nil
+		},
+	})
+	if err := p.Connect(rt.Sock); err != nil {
+		res.Note("%s: connect: %v", tag, err)
+		res.Inconcl()
+		return
+	}
+	defer p.StopStub()
+	select {
+	case err := <-done:
+		if err != nil {
+			res.Violate("C09/failed-small-state", fmt.Sprintf("a plugin whose Synchronize handler issues an unsolicited update could not be synchronized (state of %d bytes, objects of at most %d): %v", cs.Total, cs.MaxO, err), what)
+			return
+		}
+	case <-time.After(100 * time.Second):
+		res.Violate("C09/hang", "synchronization of a plugin whose handler issues an unsolicited update neither completed nor failed within 100 s; goroutines:\n"+nriStacks(), what)
+		return
+	}
+	if int(gotP.Load()) != len(pods) || int(gotC.Load()) != len(ctrs) || updates.Load() != 1 || uerr.Load() != nil {
+		res.Violate("C09/state-differs", fmt.Sprintf("handler received %d/%d pods, %d/%d containers; its own update reached the runtime %d times (error %v)", gotP.Load(), len(pods), gotC.Load(), len(ctrs), updates.Load(), uerr.Load()), what)
+	}
+	res.Seen(fmt.Sprintf("update-from-handler|split%v", cs.Total > 4<<20))
+}
+
 // c09StopsReading: a peer answers its configuration and then stops reading its socket; the state is larger
 // than the socket buffers, so the runtime's synchronization message cannot be sent. Registration fails
 // cleanly within the bound, and a well-behaved plugin registers afterwards.
@@ -560,6 +621,14 @@ func runC09(c *ev.ChildEnv, res *ev.Result) {
 	adaptation.SetPluginRequestTimeout(30 * time.Second)
 	adaptation.SetPluginRegistrationTimeout(30 * time.Second)
 	if c.Batch%3 == 2 {
+		for i, cs := range []*c09Case{{Name: "update-from-handler-split", Pods: rep(3, 200), Ctrs: rep(110, 60<<10)}, {Name: "update-from-handler-small", Pods: rep(3, 200), Ctrs: rep(4, 100)}} {
+			cs.finish()
+			c.WAL("update from handler %d", i)
+			res.Eval()
+			d := fmt.Sprintf("%s/ufh%d", c.Dir, i)
+			mkdirAll(d)
+			c09UpdateFromHandler(d, res, fmt.Sprintf("ufh%d", i), cs)
+		}
 		c.WAL("stops reading")
 		res.Eval()
 		d := c.Dir + "/deaf"
